@@ -381,23 +381,59 @@ func threadPhis(fn *Function, nonNil func(Value) bool) bool {
 					continue
 				}
 				res, known := evalCond(ifi.Cond, M, k, P, nonNil, 0)
-				if !known {
-					continue
-				}
-				T := M.Succs[1]
-				if res {
-					T = M.Succs[0]
-				}
-				if T == M {
-					continue
-				}
-				already := false
-				for _, s := range P.Succs {
-					if s == T {
-						already = true
+				var targets []*BasicBlock
+				var matCond Value // materialise: P itself branches on this value
+				if known {
+					if res {
+						targets = []*BasicBlock{M.Succs[0]}
+					} else {
+						targets = []*BasicBlock{M.Succs[1]}
+					}
+				} else {
+					// the condition is the phi itself (or its negation) and P only jumps to M:
+					// P can branch on its own operand directly
+					var cphi *Phi
+					neg := false
+					if ph, ok := ifi.Cond.(*Phi); ok && ph.Block() == M {
+						cphi = ph
+					} else if u, ok := ifi.Cond.(*UnOp); ok && u.Block() == M && u.Op.String() == "!" {
+						if ph, ok := u.X.(*Phi); ok && ph.Block() == M && len(M.Instrs) == nphi+2 {
+							cphi, neg = ph, true
+						}
+					}
+					if cphi == nil || len(P.Succs) != 1 {
+						continue
+					}
+					if _, isJump := P.Instrs[len(P.Instrs)-1].(*Jump); !isJump {
+						continue
+					}
+					v := cphi.Edges[k]
+					if _, isConst := v.(*Const); isConst {
+						continue
+					}
+					if bt, ok := v.Type().Underlying().(*types.Basic); !ok || bt.Info()&types.IsBoolean == 0 {
+						continue
+					}
+					matCond = v
+					targets = []*BasicBlock{M.Succs[0], M.Succs[1]}
+					if neg {
+						targets = []*BasicBlock{M.Succs[1], M.Succs[0]}
 					}
 				}
-				if already {
+				skip := false
+				for _, T := range targets {
+					if T == M {
+						skip = true
+					}
+					if matCond == nil {
+						for _, s := range P.Succs {
+							if s == T {
+								skip = true
+							}
+						}
+					}
+				}
+				if skip {
 					continue
 				}
 				// values of the condition chain must not be needed anywhere else
@@ -410,33 +446,44 @@ func threadPhis(fn *Function, nonNil func(Value) bool) bool {
 				if chainUsed {
 					continue
 				}
-				// split the new edge P -> T with an empty block E (the place where M's phis take P's operands)
-				E := &BasicBlock{Comment: "thread." + M.Comment, parent: fn}
-				jj := new(Jump)
-				jj.setBlock(E)
-				E.Instrs = []Instruction{jj}
-				E.Preds = []*BasicBlock{P}
-				E.Succs = []*BasicBlock{T}
-				mi := T.predIndex(M)
-				for _, ins := range T.Instrs {
-					tphi, ok := ins.(*Phi)
-					if !ok {
-						break
+				// split each new edge P -> T with an empty block E (the place where M's phis take P's operands)
+				var Es []*BasicBlock
+				for _, T := range targets {
+					E := &BasicBlock{Comment: "thread." + M.Comment, parent: fn}
+					jj := new(Jump)
+					jj.setBlock(E)
+					E.Instrs = []Instruction{jj}
+					E.Preds = []*BasicBlock{P}
+					E.Succs = []*BasicBlock{T}
+					mi := T.predIndex(M)
+					for _, ins := range T.Instrs {
+						tphi, ok := ins.(*Phi)
+						if !ok {
+							break
+						}
+						v := tphi.Edges[mi]
+						if mp, isPhi := v.(*Phi); isPhi && mp.Block() == M {
+							v = mp.Edges[k]
+						}
+						tphi.Edges = append(tphi.Edges, v)
 					}
-					v := tphi.Edges[mi]
-					if mp, isPhi := v.(*Phi); isPhi && mp.Block() == M {
-						v = mp.Edges[k]
-					}
-					tphi.Edges = append(tphi.Edges, v)
+					T.Preds = append(T.Preds, E)
+					fn.Blocks = append(fn.Blocks, E)
+					E.Index = len(fn.Blocks) - 1
+					Es = append(Es, E)
 				}
-				T.Preds = append(T.Preds, E)
-				for i, s := range P.Succs {
-					if s == M {
-						P.Succs[i] = E
+				if matCond == nil {
+					for i, s := range P.Succs {
+						if s == M {
+							P.Succs[i] = Es[0]
+						}
 					}
+				} else {
+					br := &If{Cond: matCond}
+					br.setBlock(P)
+					P.Instrs[len(P.Instrs)-1] = br
+					P.Succs = []*BasicBlock{Es[0], Es[1]}
 				}
-				fn.Blocks = append(fn.Blocks, E)
-				E.Index = len(fn.Blocks) - 1
 				var phis []*Phi
 				var vals []Value
 				for _, ins := range M.Instrs[:nphi] {
@@ -452,7 +499,9 @@ func threadPhis(fn *Function, nonNil func(Value) bool) bool {
 					if altDefs[ph] == nil {
 						altDefs[ph] = map[*BasicBlock]Value{}
 					}
-					altDefs[ph][E] = vals[i]
+					for _, E := range Es {
+						altDefs[ph][E] = vals[i]
+					}
 					repairUses(fn, ph, M, altDefs[ph])
 				}
 				changed, again = true, true
